@@ -70,6 +70,7 @@ def vote_json(c):
 def run(ctx, res):
     from . import genarith
     genarith.regenerate(ctx.pid, "raire", res)   # regenerated tie: bp_estimate / cp_estimate (DESIGN 2.1)
+    genarith.regenerate(ctx.pid, "raire_skeletons", res)   # whole-function skeletons of the search, tied to RaireAlgo.v
     rng = ctx.rng
     # 1. exhaustive small profiles (quick: <= 3 candidates x <= 4 ballots, every reported winner, alternating
     #    difficulty function; thorough: both functions, and 4 candidates x <= 3 ballots)
